@@ -234,6 +234,7 @@ pub fn run(tier: &str, seed: u64, outdir: &str) {
         v.sort();
         sx::list(v.iter(), |(k, e)| format!("({} {})", sx::s(k), sx::s(e)))
     };
+    let ms_of: Vec<String> = links.iter().map(|l| l.try_clone().unwrap().try_into().unwrap()).collect();
     let second = issued.iter().position(|(_, qi)| *qi != issued[0].1).unwrap_or(0);
     for (ii, (cred, qi)) in issued.iter().enumerate() {
         let q = &reqs[*qi];
@@ -250,6 +251,11 @@ pub fn run(tier: &str, seed: u64, outdir: &str) {
             ("signature-of-another", Box::new(|d: &mut Value| { d["signature"] = serde_json::to_value(&other_cred.signature).unwrap(); }), true),
             ("value-removed", Box::new(|d: &mut Value| { d["values"].as_object_mut().unwrap().remove("age"); }), false),
             ("value-added", Box::new(|d: &mut Value| { d["values"]["height"] = json!({"raw": "1", "encoded": "1"}); }), false),
+            // an entry under the name the link secret is kept under: the holder's own link secret takes its place when the
+            // values are handed to the CL layer, so it changes nothing - neither with the signing holder's secret in it ...
+            ("value-added-master-secret-of-signer", Box::new(|d: &mut Value| { d["values"]["master_secret"] = json!({"raw": ms_of[q.link], "encoded": ms_of[q.link]}); }), false),
+            // ... nor with another number
+            ("value-added-master-secret-other", Box::new(|d: &mut Value| { d["values"]["MASTER_secret"] = json!({"raw": "12345", "encoded": "12345"}); }), false),
             // applied to the W3C document only (the legacy run of these is the unaltered credential)
             ("w3c-bool-claim-added", Box::new(|_d: &mut Value| {}), false),
             ("w3c-foreign-anoncreds-proof-first", Box::new(|_d: &mut Value| {}), true),
@@ -268,7 +274,7 @@ pub fn run(tier: &str, seed: u64, outdir: &str) {
                     let mds: Vec<(&str, Value, usize, usize)> = vec![("own", own.clone(), q.id, q.id), ("other", oth.clone(), oq.id, oq.id), ("nonce-of-other", nonce_swapped, q.id, oq.id), ("blinding-of-other", blind_swapped, oq.id, q.id)];
                     for (mname, mdoc, mb, mn) in mds {
                         let alterations = (*ename != "none") as u32 + (k != 0) as u32 + (l != q.link) as u32 + (mname != "own") as u32;
-                        if alterations > 1 && !thorough && !r.chance(1, 8) {
+                        if alterations > 1 && !thorough && !r.chance(1, 8) && !(ename.starts_with("value-added-master-secret") && alterations == 2 && mname == "own" && k == 0) {
                             continue;
                         }
                         let md: CredentialRequestMetadata = serde_json::from_value(mdoc).unwrap();
